@@ -196,8 +196,10 @@ pub fn run_check(spec: CheckSpec, tier: &str, emit_findings: Option<&str>) -> i3
         return 2;
     }
 
-    // vacuity
-    if nontrivial.len() < 2 {
+    // vacuity (only a machinery verdict when nothing was found: a reproducible violation stands
+    // whatever it did to the "non-trivial" statistics - e.g. a bound of 0 that is ignored makes
+    // every C15 program trivial *and* breaks the bound in every iteration)
+    if nontrivial.len() < 2 && new_viols.is_empty() {
         eprintln!("MACHINERY: family is vacuous ({} non-trivial programs)", nontrivial.len());
         return 2;
     }
